@@ -1237,8 +1237,14 @@ void reb_integrator_whfast_part2(struct reb_simulation* const r){
             p_j[index].y += r->dt/2.*p_j[index].vy;
             p_j[index].z += r->dt/2.*p_j[index].vz;
             reb_particles_transform_jacobi_to_inertial_posvel(particles_var1, p_j+index, particles, N_real, N_active);
-            if (r->calculate_megno){
-                reb_calculate_acceleration_var(r);
+        }
+        if (r->calculate_megno){
+            // Calculate the variational accelerations once, after all sets have been refreshed. Doing this inside the
+            // loop over the sets resets the extra 0-1 term of the sets already processed.
+            reb_calculate_acceleration_var(r);
+            for (int v=0;v<r->N_var_config;v++){
+                struct reb_variational_configuration const vc = r->var_config[v];
+                struct reb_particle* const particles_var1 = particles + vc.index;
                 const double dx = particles[0].x - particles[1].x;
                 const double dy = particles[0].y - particles[1].y;
                 const double dz = particles[0].z - particles[1].z;
